@@ -6,6 +6,8 @@ import PBProofs.Lemmas.DbSim
 import PBProofs.Lemmas.DbDelay
 import PBProofs.Lemmas.DbSrc
 import PBProofs.Lemmas.DbKey
+import PBProofs.Lemmas.DbNum
+import PB.Gen.DbAcc
 import PB.Gen.DbTime
 import PB.Gen.MetaSrc
 import PB.Gen.DbKey
@@ -282,8 +284,11 @@ theorem purge_exact (cfg : Cfg) (s : Store) (hn : s.NodupKeys) (q : Query) (loc 
 
 /-- For conditions whose operators fit the kinds of the root-level fields they name (README "Req. Type"), the
     struct accessor and the JSON accessor give the same verdict on the same field values — for every nesting of
-    and / or / not. -/
-theorem struct_json_agree (fs : Fields) (c : Cond) (ht : c.typedFor fs) :
+    and / or / not, every operand, and every value a Go field of that kind can hold (`goValues`): the whole `int64`
+    range for integer fields (beyond ±2^53 the JSON accessor's `gjson.Result.Int` reads the raw text, see
+    `gjsonInt_int64`), every float64 for float fields. The conversions the JSON accessor applies are the ones found in
+    the source on this run (`PB.Gen.DbAcc`): with `int64(result.Num)` in `GetInt` this proof fails. -/
+theorem struct_json_agree (fs : Fields) (c : Cond) (hg : goValues fs) (ht : c.typedFor fs) :
     c.complies (.struct fs) = c.complies (.json fs) := by
   induction c with
   | leaf sel l =>
@@ -301,9 +306,28 @@ theorem struct_json_agree (fs : Fields) (c : Cond) (ht : c.typedFor fs) :
         rw [hl] at ht
         cases v with
         | prim p =>
-          cases p <;> cases l <;> simp at ht <;>
-            simp [Leaf.eval, View.exists, View.getInt, View.getFloat, View.getString, View.getBool, structGet, jsonGet, hl, primJV,
-              Int.mul_tdiv_cancel]
+          have hp := hg name p hl
+          cases p with
+          | int i =>
+            have hi : jsonNumToInt (i * 1000) = i := by
+              unfold jsonNumToInt
+              simp only [show PB.Gen.DbAcc.jsonIntVia = 0 from rfl, if_true]
+              exact gjsonInt_int64 i hp.1 hp.2
+            cases l <;> simp at ht <;>
+              simp [Leaf.eval, View.exists, View.getInt, structGet, jsonGet, hl, primJV, hi]
+          | flt m =>
+            have hm : jsonNumToFloat m = m := by
+              unfold jsonNumToFloat
+              simp only [show PB.Gen.DbAcc.jsonFloatVia ≤ 1 from by decide, if_true]
+              exact hp
+            cases l <;> simp at ht <;>
+              simp [Leaf.eval, View.exists, View.getFloat, structGet, jsonGet, hl, primJV, hm]
+          | str x =>
+            cases l <;> simp at ht <;>
+              simp [Leaf.eval, View.exists, View.getString, structGet, jsonGet, hl, primJV]
+          | bool x =>
+            cases l <;> simp at ht <;>
+              simp [Leaf.eval, View.exists, View.getBool, structGet, jsonGet, hl, primJV]
         | obj ofs =>
           cases l <;> simp at ht
           simp [Leaf.eval, View.exists, structGet, jsonGet, hl]
@@ -317,9 +341,20 @@ theorem struct_json_agree (fs : Fields) (c : Cond) (ht : c.typedFor fs) :
   | ff => rfl
   | err => rfl
 
+/-- The domain of `struct_json_agree` has no hidden 2^53 bound: the `int64` an integer field holds comes back from the
+    serialised form exactly, for every `int64` (source conversion of this run). -/
+theorem json_int_field_exact (i : Int) (h1 : -9223372036854775808 ≤ i) (h2 : i ≤ 9223372036854775807) (name : String) :
+    View.getInt (.json [(name, .prim (.int i))]) [name] = some i ∧
+    View.getInt (.struct [(name, .prim (.int i))]) [name] = some i := by
+  have hi : jsonNumToInt (i * 1000) = i := by
+    unfold jsonNumToInt
+    simp only [show PB.Gen.DbAcc.jsonIntVia = 0 from rfl, if_true]
+    exact gjsonInt_int64 i h1 h2
+  simp [View.getInt, jsonGet, structGet, lookup, primJV, hi]
+
 /-- Hence a query cannot tell a typed record from what a serialising backend stores for it. -/
 theorem query_backend_independent (b : Backend) (q : Query) (r : Rec) (hform : r.form = .struct)
-    (hlive : ¬ r.md.deleted > 0) (hne : r.fields ≠ [])
+    (hlive : ¬ r.md.deleted > 0) (hne : r.fields ≠ []) (hg : goValues r.fields)
     (ht : ∀ c, q.cond = some c → c.typedFor r.fields) :
     q.matchesRecord (stored b r) = q.matchesRecord r := by
   unfold Query.matchesRecord
@@ -334,7 +369,7 @@ theorem query_backend_independent (b : Backend) (q : Query) (r : Rec) (hform : r
         | nil => exact absurd hf hne
         | cons _ _ => rfl
       simp [hs, hlive, hform, hemp]
-      exact (struct_json_agree r.fields c (ht c hc)).symm
+      exact (struct_json_agree r.fields c hg (ht c hc)).symm
     · simp [hs]
 
 /-- The statement without the typing proviso is false on the code: sub-level, array-length and array-index
@@ -526,12 +561,55 @@ example :
       maintainRec { backend := b, shadow := false } 101 thr r = none ∧
       (maintainRec { backend := b, shadow := true } 101 thr r).map (·.md.deleted) = some 100) := by decide
 
-/-- A well-typed condition on a harness-schema record (hypothesis of `struct_json_agree`) that matches. -/
+/-- A well-typed condition on a harness-schema record (hypotheses of `struct_json_agree`) that matches. -/
 example :
     let fs : Fields := [("S", .prim (.str "abc")), ("I", .prim (.int 5)), ("F", .prim (.flt 1500)), ("B", .prim (.bool true))]
     let c : Cond := .and (.leaf ["I"] (.intCmp .ge 5)) (.or (.leaf ["F"] (.fltCmp .lt 2000)) (.not (.leaf ["B"] (.is false))))
-    c.typedFor fs ∧ c.complies (.struct fs) = true := by
-  refine ⟨by simp [Cond.typedFor, Leaf.typedFor, lookup], by decide⟩
+    goValues fs ∧ c.typedFor fs ∧ c.complies (.struct fs) = true := by
+  refine ⟨?_, by simp [Cond.typedFor, Leaf.typedFor, lookup], by decide⟩
+  intro name p h
+  simp only [lookup] at h
+  repeat' split at h
+  all_goals first | (cases h; simp [Prim.goValue]; try decide) | cases h
+
+/-- Beyond 2^53: the integer 2^53 + 1 = 9007199254740993 (not a float64) in an `int64` field. Typed struct and
+    serialised record agree on every integer operator, and the verdicts depend on the low bit a float64 would lose:
+    `== 9007199254740993` matches, `> 9007199254740992` matches, `<= 9007199254740992` does not. -/
+example :
+    let fs : Fields := [("I", .prim (.int 9007199254740993))]
+    goValues fs ∧
+    (∀ v : View, v = .struct fs ∨ v = .json fs →
+      (Cond.leaf ["I"] (.intCmp .eq 9007199254740993)).complies v = true ∧
+      (Cond.leaf ["I"] (.intCmp .gt 9007199254740992)).complies v = true ∧
+      (Cond.leaf ["I"] (.intCmp .le 9007199254740992)).complies v = false ∧
+      (Cond.not (.leaf ["I"] (.intCmp .eq 9007199254740992))).complies v = true) := by
+  refine ⟨?_, ?_⟩
+  · intro name p h
+    simp only [lookup] at h
+    split at h
+    · cases h; simp [Prim.goValue]
+    · cases h
+  · intro v hv
+    rcases hv with rfl | rfl <;> decide
+
+/-- The ends of the range and a float64 field that holds 2^62 (a float64) against an operand that is not one
+    (2^62 + 1 is rounded to 2^62 by `newFloatCondition`, for both record forms alike). -/
+example :
+    let fs : Fields := [("I", .prim (.int (-9223372036854775808))), ("F", .prim (.flt 4611686018427387904000))]
+    goValues fs ∧
+    (∀ v : View, v = .struct fs ∨ v = .json fs →
+      (Cond.leaf ["I"] (.intCmp .eq (-9223372036854775808))).complies v = true ∧
+      (Cond.leaf ["I"] (.intCmp .lt (-9223372036854775807))).complies v = true ∧
+      (Cond.leaf ["F"] (.fltCmp .eq 4611686018427387905000)).complies v = true ∧
+      (Cond.leaf ["F"] (.fltCmp .lt 4611686018427388416000)).complies v = false ∧
+      (Cond.leaf ["F"] (.fltCmp .lt 4611686018427388417000)).complies v = true) := by
+  refine ⟨?_, ?_⟩
+  · intro name p h
+    simp only [lookup] at h
+    repeat' split at h
+    all_goals first | (cases h; simp [Prim.goValue]; try decide) | cases h
+  · intro v hv
+    rcases hv with rfl | rfl <;> decide
 
 /-- A complete run of the hand-over protocol with three records through a channel of capacity two. -/
 example : (Iter.exec (Iter.init 3 2) [.send, .send, .recv, .send, .storeErr, .recv, .closeNext, .recv, .seeEnd, .closeDone, .readErr]).map
